@@ -381,7 +381,9 @@ def random_op(mg, g, rng, inv):
             for c, k in sides[:12]:
                 nodes = [c.node[(k + 1) % c.num_nodes], c.node[k], nd]
                 p = [(G.fx(n.pos[0]), G.fx(n.pos[1])) for n in nodes]
-                if G.shoelace2(p) > 0 and not G.overlaps_mesh(g, p):
+                side2 = max((p[i][0] - p[(i + 1) % 3][0]) ** 2 + (p[i][1] - p[(i + 1) % 3][1]) ** 2 for i in range(3))
+                # (a sliver that is degenerate in exact arithmetic and only exists through rounding is not an edit)
+                if G.shoelace2(p) * 1000 > side2 and not G.overlaps_mesh(g, p):
                     return ['add_column', {'name': fresh_name(g, 'column', rng, g.colname_length),
                                            'nodes': [G.node_loc(n) for n in nodes],
                                            'surface': H(c.surface) if c.surface is not None else None}]
